@@ -6,7 +6,13 @@
 EXTENDS Integers, Sequences, FiniteSets
 Keys(d) == {d[k][1] : k \in DOMAIN d}
 Get(d, key) == d[CHOOSE k \in DOMAIN d : d[k][1] = key][2]
-RatEq(a, b) == a[1] * b[2] = b[1] * a[2]
+\* equality by reduced forms: no cross-multiplication, so large numerators (a wrong observation) cannot overflow TLC's 32-bit integers
+RECURSIVE RatGcd(_, _)
+RatGcd(a, b) == IF b = 0 THEN a ELSE RatGcd(b, a % b)
+RatNorm(a) == LET n == IF a[1] < 0 THEN -a[1] ELSE a[1]
+                  g == RatGcd(n, a[2]) IN
+              IF g = 0 THEN a ELSE <<a[1] \div g, a[2] \div g>>
+RatEq(a, b) == RatNorm(a) = RatNorm(b)
 SumOver(rs, F(_)) == LET S[k \in 0..Len(rs)] == IF k = 0 THEN 0 ELSE S[k - 1] + F(rs[k]) IN S[Len(rs)]
 Concat(ss) == LET C[k \in 0..Len(ss)] == IF k = 0 THEN <<>> ELSE C[k - 1] \o ss[k] IN C[Len(ss)]
 
